@@ -89,6 +89,22 @@ def run_case(cs):
             nm = "added%d.bin" % g
             with open(os.path.join(root, nm), "wb") as f:
                 f.write(rng.randbytes(5))
+    unchained = set()
+    if rng.random() < 0.2:
+        # a run that died after its manifest was in place and before the chain file was replaced (orphan manifest), then
+        # complete runs: the chain of the root history has a gap in its sequence numbers from here on
+        cp = os.path.join(root, "ascmhl", "ascmhl_chain.xml")
+        with open(cp, "rb") as f:
+            keep = f.read()
+        before_names = set(world.manifests(root, "."))
+        r = drive.run("create", [root, "-h", "md5"])
+        if r.exit == 0:
+            with open(cp, "wb") as f:
+                f.write(keep)
+            unchained = {("." , n) for n in set(world.manifests(root, ".")) - before_names}
+            for _ in range(rng.randint(1, 2)):
+                drive.run("create", [root, "-h", "md5"])
+            cs.count("scenarios_with_gap_in_chain")
     hists = world.find_histories(root)
     files = sorted(k for k, v in world.read_tree(root).items() if v is not None)
     pristine = os.path.join(d, "pristine")
@@ -97,6 +113,8 @@ def run_case(cs):
     for h in hists:
         ms = world.manifests(root, h)
         for i, name in enumerate(ms):
+            if (h, name) in unchained:
+                continue  # not listed in the chain: the statement says nothing about it
             pos = "first" if i == 0 else "last" if i == len(ms) - 1 else "gen>=10" if i >= 9 else "middle"
             kinds = EDITS if cs.tier == "thorough" and not long_history else rng.sample(EDITS, 1 if long_history and 0 < i < len(ms) - 1 and i != 9 else 3)
             for k in kinds:
@@ -228,15 +246,15 @@ def run_case(cs):
     # ---- tampering *while* a create run is in progress (after it has loaded and checked the history, before it commits):
     # the run may or may not notice, but it must not launder the change: later commands still refuse with 31
     if rng.random() < 0.5:
-        _tamper_during_create(cs, rng, d, area, root, dest, hists, files)
+        _tamper_during_create(cs, rng, d, area, root, dest, hists, files, unchained)
     cs.sample({"histories": hists, "faults": len(faults), "skeleton": skel})
 
 
-def _tamper_during_create(cs, rng, d, area, root, dest, hists, files):
+def _tamper_during_create(cs, rng, d, area, root, dest, hists, files, unchained=()):
     import ascmhl.hashlist_xml_parser as HX
 
     h = rng.choice(hists)
-    ms = world.manifests(root, h)
+    ms = [n for n in world.manifests(root, h) if (h, n) not in unchained]
     if not ms:
         return
     victim = os.path.join(hist.asc_dir(root, h), rng.choice(ms))
